@@ -4,29 +4,29 @@ import json, os, sys
 ROOT = os.path.dirname(os.path.dirname(os.path.abspath(__file__)))
 
 # id: (claimed, engine, category, technique, text, note, design_ref)
-SEQ_NOTE = "Reference model (verif/model) follows the Redis command reference (rules in DESIGN.md Appendix B); argument values outside the alphabet and programs deeper than the completed depth are not covered; Go map iteration order is normalised in the oracle."
+SEQ_NOTE = "Reference model (verif/model) follows the Redis command reference (rules in DESIGN.md Appendix B); argument values outside the alphabet and its numeric-extremes passes, and programs deeper than the completed depth (+1 reading command), are not covered; the state key includes a structural fingerprint of every value object; Go map iteration order is normalised in the oracle."
 def seq(text, ref):
     return (True, "seqmc", "model_checking",
         "explicit-state BFS over command programs on the real executors, compared step-by-step with a reference model",
         text, SEQ_NOTE, ref)
 P = {
  "C01": seq("Every program up to the completed depth over a collision-forcing alphabet of string/key commands (all SET option combinations, index extremes, binary values, mixed-case keys), from the empty keyspace and from one seeded key of every type, is executed on the real executors; every reply, the full keyspace dump, structural invariants and an observer sweep (EXISTS/TYPE/TTL/GET/KEYS) are compared with the reference model in every reachable state.", "DESIGN.md §3 C01"),
- "C06": seq("Every program up to the completed depth over deadline-attaching / keeping / replacing / removing commands and explicit clock events (0.5 s, 1 s) on every value type, under a virtual clock, in two scheduling variants (timer goroutines run when due / withheld so only lazy expiry acts); after the last level every reading and writing probe command is applied to a replayed copy of each state. Oracle: model with exact millisecond deadlines and a one-second ambiguity window.", "DESIGN.md §3 C06"),
- "C09": seq("Every program up to the completed depth over the list commands (elements {a,b}, indexes/counts -3..3 and beyond, all LPOS option combinations, LMOVE incl. src=dst, blocking pops driven by the virtual clock) from empty, seeded lists and wrong-typed keys; replies, LRANGE/LLEN/EXISTS/TYPE observers and the list-link invariant (forward walk = backward walk = Len) are checked in every state.", "DESIGN.md §3 C09"),
+ "C06": seq("Every program up to the completed depth over deadline-attaching / keeping / replacing / removing commands and explicit clock events (0.5 s, 1 s) on every value type, under a virtual clock, in two scheduling variants (timer goroutines run when due / withheld so only lazy expiry acts); after the last level every reading and writing probe command is applied to a replayed copy of each state. Oracle: model with exact millisecond deadlines and a one-second ambiguity window. Second stage (interleaving explorer): 22 commands pairwise on a key whose deadline has passed while its reaper timer - a third thread - has not run yet, every schedule with <= 2/3 preemptions, linearizability + final state. Numeric extremes (far-future, overflowing, foreign spellings) in every integer argument.", "DESIGN.md §3 C06, §12.5"),
+ "C09": seq("Every program up to the completed depth over the list commands (elements {a,b}, indexes/counts -3..3 and beyond, all LPOS option combinations, LMOVE incl. src=dst, blocking pops driven by the virtual clock) from empty, seeded lists and wrong-typed keys; replies, LRANGE/LLEN/EXISTS/TYPE observers and the list-link invariant (forward walk = backward walk = Len) are checked in every state. Second stage (interleaving explorer, 'each element goes to exactly one popper'): every pair of 21 list commands on one key from three seed states and BLPOP against 11 partners, every schedule with <= 2/3 preemptions, plus the free-running -race pass.", "DESIGN.md §3 C09, §12.5"),
  "C10": seq("Every program up to the completed depth over the hash commands (fields {f,g,''}, values incl. empty, numeric extremes and CRLF) from empty, seeded hashes and wrong-typed keys, compared with a map model in every state.", "DESIGN.md §3 C10"),
  "C11": seq("Every program up to the completed depth over the set commands (members {a,b,''}, colliding and non-colliding keys, every combination of existing/missing/wrong-typed operands) compared with a map-of-sets model; results of random commands are adopted after checking they were admissible.", "DESIGN.md §3 C11"),
  "C12": seq("Every program up to the completed depth over ZADD (every option combination in both letter cases), ZREM, ZRANK, ZRANGE (index windows, REV, WITHSCORES) with tied, negative, fractional and infinite scores, from empty and seeded trees up to height 3; the AVL checker (BST order, stored heights, balance, len, dict<->Names) runs in every reachable state.", "DESIGN.md §3 C12"),
  "C02": (True, "respmc", "exploration",
    "exhaustive enumeration of read-chunk partitions of encoded command streams and of short malformed byte strings, against the real parser and connection handler",
-   "Every argument vector over an alphabet of CR, LF, NUL, 0xFF and RESP metacharacters (incl. a 5000-byte argument and pipelines) is encoded and fed to resp.ParseStream under every partition into read chunks (all 2^(L-1) for L<=16, else <=2/3 cut points, single bytes, zero-length reads); every byte string up to length 4/5 over {*,$,+,-,:,0,1,2,a,CR,LF} plus targeted malformed families is fed alone and around valid commands, at parser level and through Manager.Handle with a second connection probing liveness.",
+   "Every argument vector over an alphabet of CR, LF, NUL, 0xFF and RESP metacharacters (incl. a 5000-byte argument and pipelines) is encoded and fed to resp.ParseStream under every partition into read chunks (all 2^(L-1) for L<=16, else <=2/3 cut points, single bytes, zero-length reads); every byte string up to length 4/5 over {*,$,+,-,:,0,1,2,a,CR,LF} plus targeted malformed families (incl. every proper prefix of four command streams = a client disconnecting at every byte, each followed by a fresh-stream probe) is fed alone and around valid commands, at parser level and through Manager.Handle with a second connection probing liveness.",
    "In-memory connections deliver exactly the scripted chunks; TCP behaviour of the built binary, longer inputs and bytes outside the alphabets are not covered.", "DESIGN.md §3 C02"),
  "C03": (True, "seqmc", "exploration",
    "exhaustive single-command sweep from payload-rich pre-states plus exhaustive short pipelines through the connection handler, replies re-decoded by an independent strict RESP decoder and compared with a reference model",
-   "Every registered command x every argument vector (<= 3/4 arguments) over keys and payloads containing CR LF, from pre-states of every value type whose members, fields, values and key names contain CR LF, empty strings and RESP look-alikes: the raw reply must decode strictly to exactly one value the model accepts (payload bit-exact, nil results flagged). Every pipeline of <= 2/3 commands over a 20-command alphabet through Manager.Handle as one chunk and every two-chunk split: reply count, order and content.",
+   "Every registered command x every argument vector (<= 3/4 arguments) over keys and payloads containing CR LF, from pre-states of every value type whose members, fields, values and key names contain CR LF, empty strings and RESP look-alikes: the raw reply must decode strictly to exactly one value the model accepts (payload bit-exact, nil results flagged). Every pipeline of <= 3/4 commands over a 20-command alphabet through Manager.Handle as one chunk and every two-chunk split: reply count, order and content. Reply-buffer aliasing probe (replies decoded only after later replies were built). Subscriber scripts: subscribe, push, +0/300/2000 ms, each command, second push, +0/300 ms, PING - one reply each (the in-memory connection honours write deadlines).",
    "Reference model for reply content; commands outside the model (SUBSCRIBE/PUBLISH/RCONF/MEMBER) are only checked for well-formedness; Pub/Sub pushes are C19's business.", "DESIGN.md §3 C03"),
  "C04": (True, "seqmc", "exploration",
    "bounded-exhaustive sweep of (command, argument vector, pre-state) triples on the real executors under a controlled scheduler that detects panics, blocked threads and leaked locks",
-   "Every registered command (+ SELECT, an unknown name, the empty command) x every argument count 0..3 over a 21-value adversarial alphabet (thorough: up to 6 with the full alphabet in the last two positions) x pre-state {missing, one key of each type, expired key}: no panic in any goroutine, the call returns (blocking pops within their virtual-time timeout), no lock stays held, probe commands on the same / a stripe-colliding / another key complete, and the worker process survives (memory-capped, hang watchdog).",
+   "Every registered command (+ SELECT, an unknown name, the empty command) x every argument count 0..3 over a 21-value adversarial alphabet (thorough: up to 6 with the full alphabet in the last two positions) x pre-state {missing, one key of each type, expired key}: no panic in any goroutine, the call returns (blocking pops within their virtual-time timeout), no lock stays held, probe commands on the same / a stripe-colliding / another key complete, and the worker process survives (memory-capped, hang watchdog). Deep pre-states: the 650 states reached by every program of <= 2 commands over a 25-command builder alphabet (deadlines attached / moved / removed, renames, containers filled / moved / emptied) x every command x <= 1 (2) arguments.",
    "Parser-level inputs are C02's; values outside the alphabet and longer argument vectors are not covered; virtual clock replaces real time.", "DESIGN.md §3 C04"),
  "C17": (True, "globmc", "model_checking",
    "exhaustive enumeration of (pattern, subject) pairs up to a length bound against an independent reference matcher, directly and through KEYS",
@@ -34,19 +34,19 @@ P = {
    "Corners the grammar leaves open (empty class, dangling '-', reversed range, '^' not first, escaped range endpoint) are computed but excluded from the verdict; longer patterns/subjects and other bytes are not covered.", "DESIGN.md §3 C17"),
  "C20": (True, "dbmc", "model_checking",
    "explicit-state search over all merges of per-connection command sequences issued through the real connection handler, compared with a per-connection model",
-   "For database counts {1,2,3,16}: every merge of 2-3 connections' programs (<= 2-3 commands each) over SELECT with 13 argument forms (valid, boundary, negative, empty, non-numeric, non-canonical, overflowing) and data commands, through Manager.Handle on in-memory connections; every reply is compared with a model holding one keyspace per database and one selected index per connection, and every database dump with its model keyspace.",
+   "For database counts {1,2,3,16}: every merge of 2-3 connections' programs (<= 2-3 commands each) over SELECT with 18 argument forms (valid, boundary, negative, empty, non-numeric, non-canonical, overflowing, base-prefixed, digit separators), reconnects and data commands, through Manager.Handle on in-memory connections; every reply is compared with a model holding one keyspace per database and one selected index per connection, and every database dump with its model keyspace.",
    "Commands are issued one at a time (interleaving = merge of sequences); simultaneous execution is covered by C05's race pass.", "DESIGN.md §3 C20"),
  "C05": (True, "concmc", "exploration",
    "stateless preemption-bounded DFS over thread interleavings of the real executors under a cooperative scheduler (scheduling point before every lock, rwlock announce, select, invocation, response), brute-force linearizability oracle; separate free-running -race pass",
-   "For each of ~26 scenarios of 2-4 client threads x 1-2 commands on keys forced to collide on a lock stripe / map shard (lost updates, check-then-act, element conservation, keyspace bookkeeping, readers vs writers, lazy expiry vs writers) every schedule with <= 2 (thorough 3) preemptions is executed on the real memdb executors; each complete history must be linearizable against the reference keyspace with a linearization ending in the dumped keyspace; invariants, deadlock, panic checked; the same thread bodies run free under -race for unsynchronised accesses.",
+   "For ~26 hand-written scenarios of 2-4 client threads x 1-2 commands on keys forced to collide on a lock stripe / map shard, and for ~1 900 generated ones - every unordered pair of the per-type single-key alphabets (22 string, 21 list, 16 hash, 12 set, 11 sorted-set, 7 stream commands) on one key from each seed state, BLPOP against 11 list mutators, 22 commands pairwise on an expired-but-unreaped key with the reaper timer as third thread - every schedule with <= 2 (thorough 3) preemptions is executed on the real memdb executors; each complete history must be linearizable against the reference keyspace with a linearization ending in the dumped keyspace; invariants, deadlock, panic checked; the same thread bodies run free under -race (replies serialised as the connection handler does) for unsynchronised accesses.",
    "Interleavings inside regions without synchronisation operations are not explored (race pass is dynamic, not exhaustive); scenarios, not arbitrary client counts.", "DESIGN.md §3 C05"),
  "C13": (True, "concmc", "exploration",
    "exhaustive lock-order audit of every command x key-order class under lock tracing, plus preemption-bounded DFS over interleavings of multi-key command pairs with linearizability / conservation / deadlock oracles",
-   "(a) every registered command x every argument vector (<= 4 arguments) over {k0,k1 (same stripe),k2,k3,...} x pre-state is run alone with lock tracing: stripe acquisition order inversion, re-acquisition, stripe-after-shard, self-deadlock and leaked locks are violations; (b) ~19 scenarios of MSET/RENAME/LMOVE/SMOVE/*STORE/multi-key DEL, EXISTS, BLPOP pairs against each other and single-key writers, every schedule with <= 2 (3) preemptions: scheduler-detected deadlock, linearizability over the joint keys for the atomic commands, conservation of elements, invariants; free-running -race pass.",
+   "(a) every registered command x every argument vector (<= 4 arguments) over {k0,k1 (same stripe),k2,k3,...} x pre-state is run alone with lock tracing: stripe acquisition order inversion, re-acquisition, stripe-after-shard, self-deadlock and leaked locks are violations; (b) ~19 hand-written scenarios plus 668 (thorough: more seeds) generated ones - every unordered pair over per-type alphabets of multi-key commands (MSET/RENAME/LMOVE/SMOVE/*STORE/multi-key DEL, EXISTS, MGET) and single-key partners on the key triple (same stripe / other shard) -, every schedule with <= 2 (3) preemptions: scheduler-detected deadlock, linearizability over the joint keys for the atomic commands, conservation of elements, invariants; free-running -race pass.",
    "Same limits as C05; blocking-pop scenarios are schedule-capped (reported in the evidence).", "DESIGN.md §3 C13"),
  "C16": (True, "walmc", "fault_enumeration",
    "exhaustive enumeration of crash points x unsynced-sector subsets x single-byte corruptions of short WAL/snapshot histories executed on the real files through the real wal/snap code",
-   "Every history up to the length bound over 15 operation shapes (plus long histories crossing two segment cuts) runs through the real wal.Create/Save/SaveSnapshot/ReleaseLockTo/cut and Snapshotter.SaveSnap on a scratch directory; at every durability callback and API return the per-file durable base is mixed sector-wise (every subset of the 512-byte sectors written since the last completed sync, file-size variants) and every image is recovered with Open+ReadAll / OpenForRead / Verify / ValidSnapshotEntries (+Repair): recovered records must be a byte-identical prefix at least as long as the acknowledged ones; every written byte is flipped with several masks and must yield an error or an unmodified prefix; damaged newest snapshot must fall back.",
+   "Every history up to the length bound over 15 operation shapes (plus long histories crossing two segment cuts) runs through the real wal.Create/Save/SaveSnapshot/ReleaseLockTo/cut and Snapshotter.SaveSnap on a scratch directory; at every durability callback and API return the per-file durable base is mixed sector-wise (every subset of the 512-byte sectors written since the last completed sync, file-size variants) and every image is recovered with Open+ReadAll / OpenForRead / Verify / ValidSnapshotEntries (+Repair): recovered records must be a byte-identical prefix at least as long as the acknowledged ones; every written byte is flipped with several masks and must yield an error or an unmodified prefix; damaged newest snapshot must fall back. Second generation: after the real recovery of a crash image, further histories of Saves (incl. a segment cut) are appended, then a clean reopen must return recovered state + everything appended, and the crash images of the second generation must satisfy the prefix oracle; records of 5 and 9 KiB; interval families of lost sectors (a prefix lost, the suffix kept).",
    "Fault model is the property's (sector-atomic, zero-filled preallocation, no reordering across files); one known open finding (record type byte not covered by the CRC).", "DESIGN.md §3 C16"),
  "C19": (True, "concmc", "exploration",
    "preemption-bounded DFS over interleavings of subscribe / publish / disconnect threads on the real Pub/Sub code with a linearizability oracle over (delivered sets, PUBLISH counts); separate -race pass",
@@ -54,19 +54,19 @@ P = {
    "In-memory connections; the shape of the SUBSCRIBE acknowledgement is C03's business.", "DESIGN.md §3 C19"),
  "C07": (True, "clustermc", "exploration",
    "iterative deviation bounding over the default schedule of an in-process 3-node cluster assembled from the real components (HandleCluster, proposal encoding, RawNode configured from startRaft's literal, the extracted Ready body on a real WAL, the real apply loop), linearizability and replica-agreement oracles; separate -race pass with concurrent clients on one node",
-   "For 5 workloads (2-3 clients on leader and followers, 1-2 commands each, incl. arguments with spaces and empty strings) and every merge order of the client programs, the default schedule and every placement of <= 1 (thorough 2) deviations - drop or out-of-order delivery of a pooled Raft message, campaign on a non-leader, crash of a node with restart at the next quiescence, submitting the next command before quiescence - at every decision point are executed; the client history must be linearizable (unacknowledged commands at most once), replicas with equal applied index identical, the most advanced replica the end state of a linearization, no node goroutine may panic. The same node code runs free under -race with three concurrent clients.",
-   "rafthttp transport, the raft.Node channel wrapper, OS processes and TCP are replaced by the simulator; membership changes and message duplication are not exercised (duplication is C15's); claimed for the composed in-process system.", "DESIGN.md §3 C07"),
+   "For 5 workloads (2-3 clients on leader and followers, 1-2 commands each, incl. arguments with spaces and empty strings) and every merge order of the client programs, the default schedule and every placement of <= 1 (thorough 2) deviations - drop or out-of-order delivery of a pooled Raft message, campaign on a non-leader, crash of a node with restart at the next quiescence, submitting the next command before quiescence - at every decision point are executed, plus five scripted fault families enumerated over their parameter boxes (leader isolated with an unreplicated tail / follower lag, heal, restarts; rconf delete of every node through every node; rconf add of a fourth node started with --join; malformed rconf); the client history must be linearizable (unacknowledged commands at most once), replicas with equal applied index identical, the most advanced replica the end state of a linearization, no node goroutine may panic; durability invariants: after every Ready that changes term / vote / log, and whenever an accepting MsgAppResp or granted MsgVoteResp is handed to the transport, a shadow restart from a copy of the node's files must recover what the node is about to promise. The same node code runs free under -race with three concurrent clients.",
+   "rafthttp transport, the raft.Node channel wrapper, OS processes and TCP are replaced by the simulator; membership changes only through the scripted families (one change per run, stub transport peers); message duplication is C15's; claimed for the composed in-process system.", "DESIGN.md §3 C07"),
  "C08": (True, "clustermc", "fault_enumeration",
    "exhaustive enumeration of crash opportunities (event boundaries and fsync callbacks inside the real Ready handling) x node subsets x restart orders of a write history on the in-process cluster with lowered snapshot thresholds",
-   "A history of acknowledged writes (strings, counter, list, set, hash, delete) runs on 1- and 3-node in-process clusters with (snapshot threshold, catch-up) in {(inf,inf),(2,1),(3,2),(3,3)}; at every event boundary of the default schedule and every fsync/fdatasync callback inside wal.Save / SaveSnap / saveSnap, every non-empty node subset is killed and restarted from its directories in every order; after stabilisation every key is read on every node and must reflect the acknowledged prefix; panics while taking / saving / loading snapshots are violations.",
+   "A history of acknowledged writes (strings, counter, list, set, hash, delete) runs on 1- and 3-node in-process clusters with (snapshot threshold, catch-up) in {(inf,inf),(2,1),(3,2),(3,3)}; at every event boundary of the default schedule and every fsync/fdatasync callback inside wal.Save / SaveSnap / saveSnap, every non-empty node subset is killed and restarted from its directories in every order; after stabilisation every key is read on every node and must reflect the acknowledged prefix; panics while taking / saving / loading snapshots are violations. Partition + restart families (leader isolated with 1..k unreplicated entries while a new leader acknowledges 1..k writes; follower lag) and the durability invariants of C07 (shadow restart after every Ready and at send time).",
    "Crash = process crash (written data survives; sector loss is C16); two open findings: snapshotting panics on list values, and no state is ever restored from a snapshot.", "DESIGN.md §3 C08"),
  "C14": (True, "clustermc", "model_checking",
    "differential enumeration: the same command bytes through a standalone connection handler and through the complete cluster execution path with consensus short-circuited, replies and full keyspace dumps compared",
-   "For ~50 command templates covering every value type x every argument position x 10 hostile byte strings (spaces, empty, CR LF, non-UTF-8, quotes, backslash, upper case, multi-byte), other letter cases of the command name, the empty command, and every writer x reader pair with hostile arguments, from a populated keyspace: HandleCluster -> proposal -> JSON entry -> publishEntries -> apply loop must give the same reply and the same keyspace as Manager.Handle.",
-   "Consensus is short-circuited (one entry per proposal); Raft carries Entry.Data opaquely (C15/C16).", "DESIGN.md §3 C14"),
+   "For ~50 command templates covering every value type x every argument position x 10 hostile byte strings (spaces, empty, CR LF, non-UTF-8, quotes, backslash, upper case, multi-byte), other letter cases of the command name, the empty command, and every writer x reader pair with hostile arguments (also committed as ONE batch of two entries from two connections), hostile command-name elements, from a populated keyspace: HandleCluster -> proposal -> JSON entry -> publishEntries -> apply loop must give the same reply and the same keyspace as Manager.Handle.",
+   "Consensus is short-circuited (one or two entries per publishEntries call); Raft carries Entry.Data opaquely (C15/C16).", "DESIGN.md §3 C14"),
  "C15": (True, "raftmc", "model_checking",
    "explicit-state search whose transition function is the real raft.RawNode: all interleavings in a small box, deviation-bounded deep search in larger boxes, invariants checked in every state",
-   "3 (5) real RawNodes with MemoryStorage under deliver / drop / duplicate / reorder / tick / propose / campaign / crash / restart / compact / partition / membership-change events: Box A enumerates every interleaving up to depth 10/12 under tiny budgets, Box B explores deep runs with <= 1/2 deviations from FIFO delivery; ElectionSafety, LogMatching, StateMachineSafety, LeaderCompleteness, commit/applied ordering, persisted term/vote/commit monotonicity and library panics are checked on every transition; 1 in 64 states is re-executed without memoisation.",
+   "3 (5) real RawNodes with MemoryStorage under deliver / drop / duplicate / reorder / tick / propose / campaign / crash / restart / compact (snapshot with payload) / delay and duplicate-and-delay of a pooled message / partition / membership-change events: Box A enumerates every interleaving up to depth 10/12 under tiny budgets, Box B explores deep runs with <= 1/2 deviations from FIFO delivery; ElectionSafety, LogMatching, StateMachineSafety, LeaderCompleteness, commit/applied ordering, persisted term/vote/commit monotonicity, commit / applied / snapshot monotonicity, no committed entry removed, no obsolete snapshot installed, and library panics are checked on every transition; 1 in 64 states is re-executed without memoisation.",
    "Budgets (terms, proposals, crashes) bound the boxes; member histories are memoised per worker (guarded by straight-line re-validation); see DESIGN §3 C15 deviations.", "DESIGN.md §3 C15"),
  "C18": seq("Every program up to the completed depth over XADD (explicit, partial and auto ids; NOMKSTREAM; MAXLEN/MINID with = and ~) and XRANGE (every bound shape) plus millisecond clock events, compared with an ordered-slice model; id order and id<->entry bijection are checked in every state.", "DESIGN.md §3 C18"),
 }
